@@ -1,1 +1,2 @@
+pub mod ast;
 pub mod tok;
